@@ -48,37 +48,31 @@ Qed.
 Lemma is_normal_eq pc c : is_normal pc c = true -> pc = Normal c.
 Proof. destruct pc; cbn; [intros H; apply N.eqb_eq in H; subst; reflexivity | discriminate]. Qed.
 
-Lemma parse_literal_text : forall l p s,
-  parse_atoms 0 l = Some p -> to_literal p = Some s -> s = map pc_val l.
+Lemma parse_literal_text : forall l s,
+  to_literal (parse_atoms 0 l) = Some s -> s = map pc_val l.
 Proof.
-  induction l as [|pc l IH]; intros p s Hp Hl; cbn [parse_atoms] in Hp.
-  - injection Hp as <-. cbn in Hl. injection Hl as <-. reflexivity.
-  - destruct (is_normal pc c_qm).
-    { destruct (parse_atoms 0 l); cbn in Hp; [injection Hp as <-; discriminate | discriminate]. }
-    destruct (is_normal pc c_star).
-    { destruct (parse_atoms 0 l); cbn in Hp; [injection Hp as <-; discriminate | discriminate]. }
+  induction l as [|pc l IH]; intros s Hl; cbn [parse_atoms] in Hl.
+  - cbn in Hl. injection Hl as <-. reflexivity.
+  - destruct (is_normal pc c_qm); [discriminate|].
+    destruct (is_normal pc c_star); [discriminate|].
     destruct (is_normal pc c_lbr) eqn:El.
     + apply is_normal_eq in El. subst pc.
-      destruct (bracket_loop false [] false 0 l) as [compl items n| |].
-      * destruct (parse_atoms n l); cbn in Hp; [injection Hp as <-; discriminate | discriminate].
-      * destruct (parse_atoms 0 l) as [p'|] eqn:Ep; cbn in Hp; [|discriminate].
-        injection Hp as <-. cbn [to_literal] in Hl.
-        destruct (to_literal p') as [s'|] eqn:Es; cbn in Hl; [|discriminate].
-        injection Hl as <-. cbn [map pc_val]. f_equal. eapply IH; eauto.
-      * discriminate.
-    + destruct (parse_atoms 0 l) as [p'|] eqn:Ep; cbn in Hp; [|discriminate].
-      injection Hp as <-. cbn [to_literal] in Hl.
-      destruct (to_literal p') as [s'|] eqn:Es; cbn in Hl; [|discriminate].
-      injection Hl as <-. cbn [map]. f_equal. eapply IH; eauto.
+      destruct (bracket_loop false [] false 0 0 l) as [compl items n|]; [discriminate|].
+      cbn [to_literal] in Hl.
+      destruct (to_literal (parse_atoms 0 l)) as [s'|] eqn:Es; cbn in Hl; [|discriminate].
+      injection Hl as <-. cbn [map pc_val]. f_equal. apply IH. reflexivity.
+    + cbn [to_literal] in Hl.
+      destruct (to_literal (parse_atoms 0 l)) as [s'|] eqn:Es; cbn in Hl; [|discriminate].
+      injection Hl as <-. cbn [map]. f_equal. apply IH. reflexivity.
 Qed.
 
 (* a component that is not scanned stands for its text with the quotes removed *)
 Lemma literal_is_text c l : compile_comp c = CLit l -> l = unquote c.
 Proof.
-  unfold compile_comp. destruct (parse_atoms 0 (to_pchars false c)) as [p|] eqn:Ep; [|discriminate].
-  destruct (to_literal p) as [s|] eqn:Es.
-  - intros H. injection H as <-. rewrite <- (to_pchars_vals false c). eapply parse_literal_text; eauto.
-  - destruct (existsb atom_invalid p); [intros H; injection H as <-; reflexivity | discriminate].
+  unfold compile_comp.
+  destruct (to_literal (parse_atoms 0 (to_pchars false c))) as [s|] eqn:Es.
+  - intros H. injection H as <-. rewrite <- (to_pchars_vals false c). apply parse_literal_text. exact Es.
+  - destruct (existsb atom_invalid _); [intros H; injection H as <-; reflexivity | discriminate].
 Qed.
 
 Lemma unquote_no_slash c :
@@ -115,7 +109,7 @@ Section Search.
     exists name, comp_ok prefix c name /\ In p (push prefix c rest name).
   Proof.
     unfold push, Spec.comp_ok. cbn [Model.search].
-    destruct (compile_comp c) as [l|pat|] eqn:Ec; cbn [is_pat orb].
+    destruct (compile_comp c) as [l|pat] eqn:Ec; cbn [is_pat orb].
     - split.
       + intros H. exists l. split; [reflexivity|]. destruct rest; exact H.
       + intros (name & -> & H). destruct rest; exact H.
@@ -129,7 +123,6 @@ Section Search.
           injection Ee as <-. exists name. split; [exact Hin|].
           apply scan_ok_spec in Hs. rewrite Hs. destruct rest; exact H.
       + split; [intros [] | intros (name & ((ents' & Ee & _) & _) & _); discriminate].
-    - split; [intros [] | intros (name & [] & _)].
   Qed.
 
   (* ---------------------------------------------------------------- the whole search, recursively *)
@@ -291,7 +284,7 @@ Section Search.
   Lemma search_nodup : listing_ok -> forall comps prefix, NoDup (search prefix comps).
   Proof.
     intros Hok. induction comps as [|c rest IH]; intros prefix; [constructor|].
-    cbn [Model.search]. destruct (compile_comp c) as [l|pat|]; [| |constructor].
+    cbn [Model.search]. destruct (compile_comp c) as [l|pat].
     - destruct rest; [|apply IH]. destruct (false || ex (prefix ++ l)); repeat constructor. intros [].
     - destruct (opendir (dir_of prefix)) as [ents|] eqn:Eo; [|constructor].
       destruct (Hok _ _ Eo) as [Hnd Hsl].
